@@ -5,8 +5,10 @@ package verifsim
 import (
 	"context"
 	"net"
+	"time"
 
 	"github.com/thushan/olla/internal/verifhook"
+	vy "github.com/thushan/olla/internal/verifyield"
 )
 
 // installHooks points the guarded seams in /repo at this run's simulator.
@@ -16,6 +18,7 @@ func installHooks(s *Sim) {
 	}
 	verifhook.YieldFn = s.yield
 	verifhook.FaultFn = s.fault
+	vy.Install(stmtSched{s})
 	verifhook.PoolGetFn = s.poolGet
 	verifhook.PoolPutFn = s.poolPut
 	verifhook.OrderFn = s.order
@@ -25,9 +28,24 @@ func uninstallHooks() {
 	verifhook.DialFn = nil
 	verifhook.YieldFn = nil
 	verifhook.FaultFn = nil
+	vy.Install(nil)
 	verifhook.PoolGetFn = nil
 	verifhook.PoolPutFn = nil
 	verifhook.OrderFn = nil
 }
 
 const hooksCompiled = true
+
+// stmtSched adapts the kernel to the instrumenter's run-time: a statement site may sleep (the bubble then
+// runs whoever else can run), a lock held by a sleeping goroutine is waited for durably, go stays go.
+type stmtSched struct{ s *Sim }
+
+func (y stmtSched) Yield(site string, blocked bool) {
+	if blocked {
+		time.Sleep(20 * time.Microsecond)
+		return
+	}
+	y.s.stmtYield(site)
+}
+
+func (y stmtSched) Spawn(f func()) { go f() }
